@@ -6,7 +6,7 @@ ROOT = os.path.dirname(os.path.dirname(os.path.abspath(__file__)))
 
 CHECKS = {
  "C09": dict(
-    text="Partial. Theorems C09_one_response_from_own_request_partial (for every global history, i.e. any interleaving of the connections' events over w workers with connection ownership fd mod w, a connection's responses are exactly the handler applied to its own requests, one each, in order) and C09_interleaving_independent_partial; C09_no_lost_wakeup_partial and C09_shutdown_ends_loop_partial for the shutdown protocol of an event loop (flag stored before the wake-up descriptor is notified, flag checked at every poll return: once shutdown() has run, the loop's next poll return ends it, whatever else happens). Data-race freedom of the C++ and the thread joins cannot be theorems about an executable Gallina model: they are decided by running the real endpoint built with -fsanitize=thread (1-6 workers, 1-12 keep-alive clients, 5-300 numbered requests over every method table of a shared router and table-less methods, shutdown() after or 0-200 ms into the load): any ThreadSanitizer report, wrong or missing response, shutdown that does not return or framework thread left alive is a violation.",
+    text="Partial. Theorems C09_one_response_from_own_request_partial (for every global history, i.e. any interleaving of the connections' events over w workers with connection ownership fd mod w, a connection's responses are exactly the handler applied to its own requests, one each, in order) and C09_interleaving_independent_partial; C09_no_lost_wakeup_partial, C09_shutdown_ends_loop_partial and C09_shutdown_around_loop_start_partial (shutdown() issued before a worker has entered its loop: the flag is looked at before the first poll; C09_refuted_flag_cleared_on_entry for a loop that resets it) for the shutdown protocol of an event loop (flag stored before the wake-up descriptor is notified, flag checked at every poll return: once shutdown() has run, the loop's next poll return ends it, whatever else happens). Data-race freedom of the C++ and the thread joins cannot be theorems about an executable Gallina model: they are decided by running the real endpoint built with -fsanitize=thread (1-6 workers, 1-12 keep-alive clients, 5-300 numbered requests over every method table of a shared router and table-less methods, shutdown() after or 0-200 ms into the load; shutdown() right after serveThreaded() with the threads counted before the destructor; the blocking serve() polled from another thread; requestLoad chained from its own continuation under load): any ThreadSanitizer report, wrong or missing response, shutdown that does not return or framework thread left alive is a violation.",
     note="Closed under the global context. The deciding evidence for the race/shutdown half is ThreadSanitizer on OS-produced schedules (not a proof, not exhaustive). Trusted: harness/h_mt.cc, TSan runtime.",
     technique="Coq proof of the dispatch logic (per-connection independence for every interleaving) + ThreadSanitizer run of the live multi-worker endpoint with response matching and shutdown under load",
     design="§2 C09"),
@@ -16,7 +16,7 @@ CHECKS = {
     technique="Coq proof (invariant over client event histories, refutation of the pre-fix behaviour) + differential correspondence against a scripted live server",
     design="§2 C15"),
  "C08": dict(
-    text="Partial. Theorems C08_callback_grammar (for every history of accept/data/EOF/error/idle-time-out/write-failure events and every descriptor, the callbacks follow (connection input* disconnection release)* and the peer table holds exactly the descriptors still connected), C08_every_prefix_well_formed, C08_once_each (disconnections = releases = connections, +1 while open), C08_no_peer_left, C08_peer_table_has_no_duplicates, by induction over event histories of the worker's transition system; C08_worker_never_touches_foreign_descriptor (with the write table prepared by the acceptor thread and poll results handled in two halves, the guarded dispatch never re-arms a descriptor outside its peer table, for every history) and C08_refuted_unguarded_writable_half (the 5-event history on which the first version of a fix aborted the worker). Tied to /repo by live listeners (raw Tcp::Handler and Http::Endpoint with 600 ms time-outs, 1-3 workers, 1-12 concurrent clients per round, up to 30 rounds) whose per-peer callback logs, callbacks-after-disconnection count and /proc/self/fd delta against the idle baseline are compared with the model's log of the same history. Residue: descriptor release is observed through /proc/self/fd, epoll interest and close() are not instrumented; kernel event delivery is the oracle.",
+    text="Partial. Theorems C08_callback_grammar (for every history of accept/data/EOF/error/idle-time-out/write-failure events and every descriptor, the callbacks follow (connection input* disconnection release)* and the peer table holds exactly the descriptors still connected), C08_every_prefix_well_formed, C08_once_each (disconnections = releases = connections, +1 while open), C08_no_peer_left, C08_peer_table_has_no_duplicates, by induction over event histories of the worker's transition system; C08_worker_never_touches_foreign_descriptor (with the write table prepared by the acceptor thread and poll results handled in two halves, the guarded dispatch never re-arms a descriptor outside its peer table, for every history) and C08_refuted_unguarded_writable_half (the 5-event history on which the first version of a fix aborted the worker); C08_connection_receives_only_its_own_writes and C08_write_queue_released_with_connection over histories of connections reusing descriptor numbers, queued writes, deliveries, disconnections and writes made for a connection that has ended (QLate: dropped by the id check; C08_refuted_write_matched_by_number_only is the code before); C08_open_files_are_the_queued_ones / C08_no_file_left_after_drop for files queued by serveFile. Tied to /repo by live listeners (raw Tcp::Handler and Http::Endpoint with 600 ms time-outs, 1-3 workers, 1-12 concurrent clients per round, up to 30 rounds) whose per-peer callback logs, callbacks-after-disconnection count /proc/self/fd delta against the idle baseline, the entries left in the workers' peers / toWrite / timers tables after every round and what fresh connections on the same descriptor numbers receive are compared with the model's log of the same history. Residue: descriptor release is observed through /proc/self/fd, epoll interest and close() are not instrumented; kernel event delivery is the oracle.",
     note="Closed under the global context. Trusted: harness/h_lifecycle.cc, the behaviour->event translation in ocaml/driver.ml (lifecycle_case).",
     technique="Coq proof (invariant by induction over connection-event histories) + differential correspondence of callback logs and descriptor balance on live listeners",
     design="§2 C08"),
@@ -56,7 +56,7 @@ CHECKS = {
     technique="Coq proof by exhaustive sweep over regenerated tables + differential correspondence incl. sanitizers",
     design="§2 C18"),
  "C19": dict(
-    text="Full under stated libc hypotheses. Theorems C19_port_roundtrip, C19_port_never_out_of_range (whatever the text), C19_v4_with_port / default_port, C19_v6_with_port, C19_alias_star / localhost, C19_empty_port_rejected, C19_print_parse_v4 / v6 (printing gives a text that parses back to the same address), all parametric in getaddrinfo/inet_pton/inet_ntop with the hypothesis each uses; the harness validates those hypotheses against the real libc on every run and compares Address/Port on valid, aliased and garbled texts.",
+    text="Full under stated libc hypotheses. Theorems C19_port_roundtrip, C19_port_never_out_of_range (whatever the text), C19_v4_with_port / default_port, C19_v6_with_port, C19_alias_star / localhost, C19_empty_port_rejected, C19_print_parse_v4 / v6 (printing gives a text that parses back to the same address), C19_nul_rejected (a NUL anywhere in the text: refused, whatever the resolver), C19_port_only_digits, C19_bad_port_rejected, C19_text_before/after_bracket_rejected, C19_empty_brackets_rejected, all parametric in getaddrinfo/inet_pton/inet_ntop with the hypothesis each uses; the harness validates those hypotheses against the real libc on every run and compares Address/Port on valid, aliased and garbled texts.",
     note="Closed under the global context. Libc conversions are section parameters, not axioms. strtol extras (' 80', '+80', '-0', '080') are modelled and compared, asserted neither way. Trusted: harness/h_net.cc, Python socket module as the oracle for canonical IPv6 text.",
     technique="Coq proof (string splitting lemmas + decimal round-trip) parametric in libc + differential correspondence against the real libc",
     design="§2 C19"),
@@ -71,7 +71,7 @@ CHECKS = {
     technique="Coq proof by in-kernel exhaustive reachability (finite interleaving semantics + closure lemma) + schedule replay on the hooked implementation",
     design="§2 C12"),
  "C13": dict(
-    text="Full. Theorems C13_fifo (the consumer's output is always the prefix, in atomic-exchange order, of what was pushed), C13_no_missed_wakeup (consumer parked with an entry queued implies notification pending or the oldest entry's producer has still to write it), C13_all_delivered (at quiescence everything pushed has been popped exactly once, in order) for ANY number of producers, pushes and EVERY interleaving, by invariant induction; C13_old_order_refuted for the snapshot's look-then-drain order. Tied to /repo by replaying all interleavings of 2x1 and 1x2 pushes with the consumer (and seeded larger ones) on the real PollableQueue through yield points.",
+    text="Full. Theorems C13_fifo (the consumer's output is always the prefix, in atomic-exchange order, of what was pushed), C13_no_missed_wakeup (consumer parked with an entry queued implies notification pending or the oldest entry's producer has still to write it), C13_all_delivered (at quiescence everything pushed has been popped exactly once, in order) for ANY number of producers, pushes and EVERY interleaving - of a consumer that, with an entry in hand, pops again or stops and goes back to its event loop as it pleases - by invariant induction; C13_old_order_refuted for the snapshot's look-then-drain order, C13_drain_on_every_pop_refuted for the code in between (a consumer that stops early is never woken). Tied to /repo by replaying all interleavings of 2x1 and 1x2 pushes with the consumer (and seeded larger ones) on the real PollableQueue through yield points.",
     note="Closed under the global context. Entries are indexed in exchange order (the next pointer of entry k-1 is the linked flag of entry k); sequentially consistent memory; consumer woken only when the eventfd is readable. Trusted: harness/h_queue.cc, pv_sched.h, hook placement in mailbox.h.",
     technique="Coq proof (invariant over a small-step interleaving semantics, unbounded producers/pushes/schedules) + exhaustive small-configuration schedule replay on the hooked implementation",
     design="§2 C13"),
@@ -91,12 +91,12 @@ CHECKS = {
     technique="Coq proof of safety invariants over the parser model + sanitizer-instrumented differential correspondence on malformed inputs",
     design="§2 C03"),
  "C04": dict(
-    text="Full (request side; response side by correspondence). Theorems C04_reset_is_init, C04_completed_message_leaves_fresh_parser, C04_independent (any sequence of completed messages on one connection is handled exactly as on fresh parsers). Tied to /repo by sequence-mode runs on ONE parser object against fresh parsers, all predecessor x successor kinds incl. messages abandoned in mid-body.",
+    text="Full (request side; response side by correspondence). Theorems C04_reset_is_init, C04_completed_message_leaves_fresh_parser, C04_independent (any sequence of completed messages on one connection is handled exactly as on fresh parsers), C04_requests_sharing_a_read_served_as_fresh, C04_one_request_alone and C04_train_of_requests_cut_anywhere (requests, each exactly one message and within the size limit, delivered on a fresh connection in reads cut ANYWHERE - inside requests, at their boundaries, several requests and the beginning of the next in one read: Handler::onInput calls the handler exactly once per request, in order, with the message each gives alone, and refuses nothing). Tied to /repo by trains of 2-40 requests cut anywhere on a live endpoint (h_timeout Z cases, compared with the model AND with the generator's own expectation), by sequence-mode runs on ONE parser object against fresh parsers, all predecessor x successor kinds incl. messages abandoned in mid-body.",
     note="Closed under the global context. reset is modelled field by field from ParserBase::reset/Step::reset/ParserImpl<Request>::reset; the response parser's move-out + reset is checked by correspondence only. Read-aligned messages (no pipelining), as scoped in DESIGN.md.",
     technique="Coq proof (reset refines to the initial state; induction over message sequences) + sequence-mode differential correspondence",
     design="§2 C04"),
  "C14": dict(
-    text="Partial. Theorems C14_size_exact (a request within the limit is never refused and is delivered at its last read; over the limit the first read crossing it is answered 413 and the handler is never reached - for every segmentation), C14_timeout_rule and corollaries (decision rule of the idle scan). Tied to /repo at parser level with limits len-2..len+1 at every cut, and for the time-outs by a live endpoint (header/body time-outs 600-2300 ms) with one raw client pacing a request: stalls after connect, inside the request line, the headers and the body, on either side of the applicable time-out, also after a completed request; status codes, connection close and handler runs are compared with the model's rule evaluated at every phase of the 500 ms scan (scripts the rule does not decide for every phase are skipped). Residue: the scan period itself and option propagation to several workers.",
+    text="Partial. Theorems C14_size_exact (a request within the limit - not longer than it, or complete within its first maxsz bytes, what follows it in the last read not counting - is never refused and is delivered at its last read; over the limit the first read crossing it is answered 413 and the handler is never reached - for every segmentation), C14_within_limit_served_whatever_follows (requests sharing a read), C14_nothing_after_refusal (after the first refusal nothing is delivered or answered any more), C14_serving_a_read_ends (the loop of Handler::onInput over the requests of one read ends, from every parser state a connection can be in), C14_timeout_rule and corollaries (decision rule of the idle scan). Tied to /repo at parser level with limits len-2..len+1 at every cut, and for the time-outs by a live endpoint (header/body time-outs 600-2300 ms) with one raw client pacing a request: stalls after connect, inside the request line, the headers and the body, on either side of the applicable time-out, also after a completed request; status codes, connection close and handler runs are compared with the model's rule evaluated at every phase of the 500 ms scan (scripts the rule does not decide for every phase are skipped). Residue: the scan period itself and option propagation to several workers.",
     note="Closed under the global context. The hypothesis 'every proper prefix at a read boundary is incomplete' is discharged by the oracle on generated well-formed requests (Done exactly at the last byte).",
     technique="Coq proof over the onInput/feed model + differential correspondence at limit-1/limit/limit+1 for every cut",
     design="§2 C14"),
